@@ -359,7 +359,7 @@ func (fr *frame) runDefer(d *deferred) {
 		if !ok {
 			r := recover()
 			switch r.(type) {
-			case pathEnd, unsupported:
+			case pathEnd, unsupported, failPanic:
 				panic(r)
 			}
 			fr.panicking = true
@@ -521,7 +521,7 @@ func (fr *frame) run() {
 		}
 		r := recover()
 		switch r.(type) {
-		case pathEnd, unsupported:
+		case pathEnd, unsupported, failPanic:
 			panic(r)
 		case targetPanic:
 		default:
